@@ -5,6 +5,8 @@ The model `parseSpec : List Char → Option (List PDim × Option Nat)` is total 
 -/
 import JaxVerif.Spec.Parse
 import JaxVerif.Lemmas.Parse
+import JaxVerif.Lemmas.ParserDsl
+import JaxVerif.Generated.ParserCode
 
 namespace JV
 
@@ -90,6 +92,83 @@ theorem C14_concat (s₁ s₂ : List Char) (d₁ d₂ : List PDim) (iv₁ iv₂ 
                       | none => iv₁.map (· + d₂.length)) :=
   parseSpec_concat s₁ s₂ d₁ d₂ iv₁ iv₂ h₁ h₂ hv
 
+/-! ### the parser the source contains today
+
+`Generated/ParserCode.lean` is the body of the `for index, elem in enumerate(dim_str.split())` loop of
+`_make_array_cached`, translated statement by statement from the current Python source on every run
+(harness/translate.py) into the language of `Model/ParserDsl.lean`. The three theorems below are
+re-proved on every run: the code the source contains IS the model the theorems above are about. -/
+
+set_option linter.unusedSimpArgs false
+
+/-- one round of the translated `while True` loop is one round of the model's modifier stripping:
+    for every remaining text and every combination of flags already seen -/
+theorem C14_source_loop_body (e : List Char) (m : Mods) (k : Option PKind) (iv : Option Nat) (idx : Nat) :
+    Generated.parserLoopBody.run (mkSt e m k iv idx) = loopSpec e m k iv idx := by
+  cases e with
+  | nil => simp [Generated.parserLoopBody, PStmt.run, PCond.eval, mkSt, loopSpec, fLenZero]
+  | cons c r =>
+    obtain ⟨mb, mv, ma, mt⟩ := m
+    simp only [Generated.parserLoopBody, PStmt.run, PCond.eval, mkSt, loopSpec, isMod, setMod, PSt.flag,
+      PSt.setFlag, fLenZero, fCountEq1]
+    by_cases h1 : c = '#'
+    · subst h1; cases mb <;> simp
+    · by_cases h2 : c = '*'
+      · subst h2; cases mv <;> simp
+      · by_cases h3 : c = '_'
+        · subst h3; cases ma <;> simp
+        · by_cases h4 : c = '?'
+          · subst h4; cases mt <;> simp
+          · have e1 : (c == '#') = false := by simpa using h1
+            have e2 : (c == '*') = false := by simpa using h2
+            have e3 : (c == '_') = false := by simpa using h3
+            have e4 : (c == '?') = false := by simpa using h4
+            by_cases he : (countEq (c :: r) == 1) = true
+            · have he' : countEq (c :: r) = 1 := by simpa using he
+              simp [e1, e2, e3, e4, he, he']
+            · simp [e1, e2, e3, e4, he]
+
+/-- **for every token**, every position and every state of `index_variadic`: running the translated loop
+    body gives exactly what the model's `parseTok` (and the multi-axis bookkeeping of `parseToks`) gives —
+    the same axis, the same `index_variadic`, `ValueError` in the same cases, and never any other error -/
+theorem C14_source_parser (elem : List Char) (idx : Nat) (iv : Option Nat) :
+    runTok Generated.parserBody elem idx iv = tokStep elem idx iv := by
+  unfold runTok tokStep
+  rw [parseTok_feat]
+  have key := iterP_loopSpec (fun x => Generated.parserLoopBody.run x) none iv idx
+    (by intro e m; exact C14_source_loop_body e m none iv idx) (elem.length + 2) elem {} (by omega)
+  simp only [mkSt] at key
+  cases h4 : fHasEll elem
+  · -- no `...` in the token: the modifier loop runs
+    cases h1 : fComma elem <;> cases h2 : fParen elem <;> cases h3 : fEndsHash elem <;>
+      simp [Generated.parserBody, PStmt.run, PCond.eval, PSt.flag, PSt.setFlag, h1, h2, h3, h4]
+    all_goals (
+      rw [key]
+      unfold loopResult
+      cases hs : stripMods (elem.length + 1) elem {} with
+      | none => simp [tokFinish]
+      | some p =>
+        obtain ⟨base, m⟩ := p
+        obtain ⟨mb, mv, ma, mt⟩ := m
+        simp only [tokFinish, classify_feat, mkSt]
+        cases h6 : fLenZero base <;> cases h7 : fIsIdent base <;> cases h8 : parseIntLit base <;>
+          cases mb <;> cases mv <;> cases ma <;> cases mt <;> cases iv <;> simp [h6, h7, h8, PKind.same])
+  · cases h1 : fComma elem <;> cases h2 : fParen elem <;> cases h3 : fEndsHash elem <;>
+      cases h5 : fEqEll elem <;> cases iv <;>
+      simp [Generated.parserBody, PStmt.run, PCond.eval, PSt.flag, PSt.setFlag, PKind.same, h1, h2, h3, h4, h5]
+
+/-- **for every specification string**: the translated code run over `dim_str.split()` yields the axes and
+    the multi-axis index of `parseSpec`, or `ValueError` exactly when `parseSpec` has none — the theorems
+    above (`C14_order`, `C14_whitespace`, `C14_doc`, the illegal forms, `C14_concat`) are therefore
+    statements about the code -/
+theorem C14_source_spec (s : List Char) :
+    runSpec Generated.parserBody s = (parseSpec s).map some :=
+  runSpec_eq Generated.parserBody C14_source_parser s
+
+/-- the loop around the body is the one the model assumes (`dims = []`, `index_variadic = None`,
+    `for index, elem in enumerate(dim_str.split())`, `dims = tuple(dims)`, non-strings rejected first) -/
+theorem C14_source_header : Generated.parserHeaderOk = true := by decide
+
 /-! non-vacuity / documented examples -/
 example : parseSpec "#*foo".toList = parseSpec "*#foo".toList := by decide
 example : parseSpec "  a   b ".toList = parseSpec "a b".toList := by decide
@@ -100,5 +179,8 @@ example : parseSpec "a,b".toList = none ∧ parseSpec "a#".toList = none ∧ par
     parseSpec "#_".toList = none ∧ parseSpec "*a *b".toList = none ∧ parseSpec "#...".toList = none ∧
     parseSpec "... *a".toList = none := by decide
 example : parseSpec "min(a,b) c".toList ≠ none := by decide
+example : runSpec Generated.parserBody "#*foo x=3 _".toList =
+    some (some ([.namedVar "foo".toList true false, .fixed 3 false, .anon], some 0)) := by decide
+example : runSpec Generated.parserBody "a,b (a)".toList = none := by decide
 
 end JV
